@@ -18,7 +18,7 @@ ASSUMPTIONS = ['reference model vt/ref.py states the documented semantics (readi
                'pycryptosat answers SAT/UNSAT correctly']
 BUDGET_S = {'quick': 60, 'thorough': 300}
 STRATA = ['S1', 'S1x', 'S2', 'S3', 'S4', 'S5', 'S6']
-QUICK_CAPS = {'S1': 260, 'S1x': 60, 'S2': 110, 'S3': 80, 'S4': 80, 'S5': 70, 'S6': 40}
+QUICK_CAPS = dsw.QUICK_CAPS
 
 
 def items(tier, seed):
